@@ -444,6 +444,26 @@ fn trace_counting(
     non_root_list: &mut LinkedList,
     queue: &mut LinkedQueue,
 ) {
+    /// If tracing unwinds, the objects still inside possible_cycles may have already been counted
+    /// by the interrupted tracing, so their tracing counter must be reset like add_to_list(...) does
+    struct ResetTracingCountersGuard<'a> {
+        possible_cycles: &'a PossibleCycles,
+    }
+
+    impl Drop for ResetTracingCountersGuard<'_> {
+        fn drop(&mut self) {
+            let mut next = self.possible_cycles.first();
+            while let Some(ptr) = next {
+                unsafe {
+                    ptr.as_ref().counter_marker().reset_tracing_counter();
+                    next = *ptr.as_ref().get_next();
+                }
+            }
+        }
+    }
+
+    let reset_guard = ResetTracingCountersGuard { possible_cycles };
+
     while let Some(ptr) = possible_cycles.remove_first() {
         // The tracing counter has already been reset by add_to_list(...)
         __trace_counting(ptr, root_list, non_root_list, queue);
@@ -456,6 +476,8 @@ fn trace_counting(
 
     debug_assert!(possible_cycles.is_empty());
     debug_assert!(queue.is_empty());
+
+    mem::forget(reset_guard); // Nothing to reset if no panic happened
 }
 
 fn __trace_counting(
